@@ -143,8 +143,18 @@ def big_case(draw):
             "seeds": [draw(st.sampled_from([0, 1]) | st.integers(0, 2 ** 32 - 1)) for _ in range(3)]}
 
 
+LARGE = [(61, 500, 3, True), (100, 400, 4, True), (250, 40, 12, True), (250, 20, 12, False), (600, 20, [5, 29], False),
+         (600, 300, [3, 12], True), (130, 30, 4, False), (1000, 200, 5, True)]
+
+
 def plan(tier, seed):
     jobs = []
+    # many interventions of few targets out of a large pool (rare coincidences inside one intervention)
+    reps = 240 if tier == "quick" else 2400
+    for k, (p, K, size, replace) in enumerate(LARGE):
+        for r in range(0, reps, 20):
+            jobs.append({"sub": "large_p", "seed": seed, "p": p, "K": K, "size": size, "replace": replace,
+                         "seeds": [seed * 7919 + k * 100003 + r + j for j in range(20)], "cost": 6})
     nshards = 32 if tier == "quick" else 96
     for k in range(nshards):
         jobs.append({"sub": "grid", "seed": seed, "shard": k, "nshards": nshards, "nseeds": 60 if tier == "quick" else 400, "cost": 10})
@@ -157,6 +167,18 @@ def plan(tier, seed):
 
 def run(job):
     acc = Acc(job["sub"])
+    if job["sub"] == "large_p":
+        for s in job["seeds"]:
+            case = {"sub": "large_p", "p": job["p"], "K": job["K"], "size": job["size"], "replace": job["replace"], "seeds": [s]}
+            try:
+                lab = check(case)
+                acc.record(case, lab + ["large_pool"], True, by_construction=True, sample=(s == job["seeds"][0] and job["p"] == 61))
+                acc.extra["interventions_checked"] = acc.extra.get("interventions_checked", 0) + job["K"]
+            except Violation as v:
+                acc.record(case, [], False)
+                acc.violation(case, v)
+        acc.exhaustive = False
+        return acc
     if job["sub"] == "grid":
         calls = 0
         for n, case in enumerate(_cells()):
